@@ -14,7 +14,7 @@ package base
 // SetOf(names...) = SetFromArray(names): a freshly allocated, non-nil set of exactly the names
 // (verified against SetFromArray's contract in base/zz_verif_c03.go).
 //@ func SetOf
-//@   ensures[fresh]  result != nil && !old(allocated(result))
+//@   ensures[fresh]  result != nil && !old(allocated(now(result)))
 //@   ensures[empty]  len(names) == 0 ==> len(result) == 0 && (forall k string :: {k in result} !(k in result))
 //@   ensures[sound]  forall k string :: {k in result} (k in result) ==> elem(names, k)
 
